@@ -207,7 +207,98 @@ def scan_function(model, fn):
                     effects.append(Effect(fn, n, 'classattr-mutate', ca, n.func.attr))
                 elif isinstance(recv, ast.Name) and recv.id in mod_mut and recv.id not in local:
                     effects.append(Effect(fn, n, 'global-mutate', '%s.%s' % (fn.module.name, recv.id), n.func.attr))
+            if fname.split('.')[-1] not in _PURE_CALLS and not fname.startswith('log'):
+                # a class-level mutable container handed to other code may be changed there
+                for a in list(n.args) + [k.value for k in n.keywords]:
+                    if isinstance(a, ast.Attribute) and isinstance(a.value, ast.Name) and a.value.id not in ('self',):
+                        c = class_ref(model, fn, a.value, aliases)
+                        if c is None or c.startswith('context['):
+                            continue
+                        if c in ('type(self)', 'cls'):
+                            owner = fn.cls
+                        else:
+                            owner = next((k for k in model.all_classes if k.fullname == c), None)
+                        if owner is None:
+                            continue
+                        oc = model.find_attr_class(owner, a.attr)
+                        if oc is None or a.attr not in oc.assigns:
+                            continue
+                        e = oc.assigns[a.attr][-1]
+                        if (isinstance(e, (ast.List, ast.Dict, ast.Set)) or (isinstance(e, ast.Call) and M.call_name(e) in ('dict', 'list', 'set'))) \
+                           and _may_keep_or_change(model, fn, n, a):
+                            effects.append(Effect(fn, n, 'classattr-escape', '%s.%s' % (c, a.attr), 'passed to %s()' % fname))
     return effects
+
+
+_PURE_CALLS = {'len', 'list', 'sorted', 'iter', 'tuple', 'set', 'dict', 'str', 'enumerate', 'reversed', 'isinstance', 'bool', 'any',
+               'all', 'min', 'max', 'sum', 'repr', 'print', 'frozenset', 'zip', 'map', 'filter', 'copy', 'deepcopy', 'update',
+               'get', 'join', 'format', 'getattr', 'hasattr', 'id', 'type', 'issubclass', 'debug', 'info', 'warning', 'error'}
+
+
+def _resolve_callee(model, fn, call):
+    f = call.func
+    if isinstance(f, ast.Attribute) and isinstance(f.value, ast.Name) and f.value.id in ('self', 'cls') and fn.cls is not None:
+        return model.find_method(fn.cls, f.attr), 1
+    if isinstance(f, (ast.Name, ast.Attribute)):
+        r = model.resolve_expr(fn, f)
+        if isinstance(r, M.FunctionInfo):
+            return r, (1 if r.cls is not None else 0)
+        if isinstance(r, M.ClassInfo):
+            init = model.find_method(r, '__init__')
+            if init is not None:
+                return init, 1
+    return None, 0
+
+
+def _aliases_name(v, name):
+    """May the value of expression `v` be the very object bound to `name` (not a copy)?"""
+    if isinstance(v, ast.Name):
+        return v.id == name
+    if isinstance(v, ast.IfExp):
+        return _aliases_name(v.body, name) or _aliases_name(v.orelse, name)
+    if isinstance(v, ast.BoolOp):
+        return any(_aliases_name(x, name) for x in v.values)
+    if isinstance(v, ast.NamedExpr):
+        return _aliases_name(v.value, name)
+    return False
+
+
+def _may_keep_or_change(model, fn, call, argnode, depth=0):
+    """Can the callee change or retain the object passed as `argnode`?  Unresolvable callees: yes."""
+    callee, skip = _resolve_callee(model, fn, call)
+    if callee is None or depth > 2:
+        return True
+    params = [a.arg for a in callee.node.args.posonlyargs + callee.node.args.args][skip:]
+    name = None
+    if argnode in call.args:
+        i = call.args.index(argnode)
+        if i < len(params):
+            name = params[i]
+    else:
+        for k in call.keywords:
+            if k.value is argnode:
+                name = k.arg
+    if name is None or name not in [a.arg for a in callee.node.args.posonlyargs + callee.node.args.args + callee.node.args.kwonlyargs]:
+        return True
+    for x in M.walk_no_nested(callee.node):
+        if isinstance(x, ast.Call):
+            if isinstance(x.func, ast.Attribute) and x.func.attr in MUTATORS and M.norm(x.func.value) == name:
+                return True
+            if M.call_name(x).split('.')[-1] in _PURE_CALLS or M.call_name(x).startswith('log'):
+                continue
+            for a in list(x.args) + [k.value for k in x.keywords]:
+                if isinstance(a, ast.Name) and a.id == name and _may_keep_or_change(model, callee, x, a, depth + 1):
+                    return True
+        elif isinstance(x, (ast.Assign, ast.AugAssign, ast.AnnAssign)):
+            tgts = x.targets if isinstance(x, ast.Assign) else [x.target]
+            for t in tgts:
+                if isinstance(t, ast.Subscript) and M.norm(t.value) == name:
+                    return True
+                if isinstance(t, ast.Attribute) and x.value is not None and _aliases_name(x.value, name):
+                    return True       # retained in an object
+        elif isinstance(x, ast.Return) and isinstance(x.value, ast.Name) and x.value.id == name:
+            return True
+    return False
 
 
 def param_mutators(model):
